@@ -206,6 +206,7 @@ func genList(t *rapid.T) ListCase {
 			c.Repeat = 10000/n + 1
 		}
 	}
+	c.Shared = c.Repeat == 0 && rapid.IntRange(0, 3).Draw(t, "shared") == 0
 	return c
 }
 
